@@ -63,10 +63,10 @@ func TestC12(t *testing.T) {
 	defer r.Finish(t)
 	var targets []Target
 	targets = append(targets, ParrotTargets(false)...)
-	for i := 0; i < mon.Pick(60, 3000); i++ {
+	for i := 0; i < mon.Pick(60, 20000); i++ {
 		targets = append(targets, RandomizedTarget(i))
 	}
-	for i := 0; i < mon.Pick(90, 5000); i++ {
+	for i := 0; i < mon.Pick(90, 30000); i++ {
 		targets = append(targets, CustomTarget(i))
 	}
 	type job struct {
